@@ -27,6 +27,44 @@ COQ_FILES = ["C01/VyCore.v", "C01/VyWf.v", "C01/VyShow.v", "C01/VyUnfold.v", "C0
              "C01/PropsC01.v"]
 
 
+def order_tags(prog):
+    """shapes whose result depends on the evaluation order of effectful operands (root causes C08 reports separately)"""
+    from vlib.c01_ast import e_children, s_exprs, s_blocks
+    tags = set()
+
+    def has_call(e):
+        return e.k in ("call", "pop") or any(has_call(c) for c in e_children(e))
+
+    def reads_state(e):
+        return e.k in ("self", "tra", "idx", "fld") or any(reads_state(c) for c in e_children(e))
+
+    def ve(e):
+        if (e.k == "cmp" or (e.k == "bin" and e.op in ("BAnd", "BOr", "BXor"))) and has_call(e.a) and has_call(e.b):
+            tags.add("compare-or-bitwise-operands-with-calls")
+        if (e.k == "cmp" or (e.k == "bin" and e.op in ("BAnd", "BOr", "BXor"))) and \
+                ((has_call(e.a) and reads_state(e.b)) or (has_call(e.b) and reads_state(e.a))):
+            tags.add("compare-or-bitwise-operand-read-vs-call")
+        if e.k == "call":
+            for i, a in enumerate(e.args):
+                if reads_state(a) and any(has_call(b) for b in e.args[i + 1:]):
+                    tags.add("call-arg-read-then-effect")
+        for c in e_children(e):
+            ve(c)
+
+    def vs(s):
+        if s.k == "aug" and s.op in ("BAnd", "BOr", "BXor") and has_call(s.e):
+            tags.add("augassign-bitwise-rhs-call")
+        for e in s_exprs(s):
+            ve(e)
+        for b in s_blocks(s):
+            for x in b:
+                vs(x)
+    for f in prog.ints + prog.exts:
+        for s in f.body:
+            vs(s)
+    return tags
+
+
 def report_diff(ctx, it, cfg, diff, other_cfgs_agree=None):
     """shrink and report one model-vs-EVM difference"""
     prog, calls = it["prog"], it["calls"]
@@ -49,8 +87,15 @@ def report_diff(ctx, it, cfg, diff, other_cfgs_agree=None):
     if diff["what"] == "model-error":
         ctx.violation("correspondence-broken", "VyCore got stuck / out of fuel on a generated program", detail)
     else:
+        tags = order_tags(sp)
+        pipe = "venom" if cfg.venom else "legacy"
+        key = f"C01:{sd['what']}:{cfg.name}"
+        if len(tags) == 1:
+            # the shrunk program is an instance of an evaluation-order shape that C08 reports with its own key
+            key = f"C01:{pipe}:order:{sorted(tags)[0]}"
+        detail["order_sensitive_shapes"] = sorted(tags)
         ctx.violation("failing-input", f"compiled bytecode disagrees with source semantics ({sd['what']}) under {cfg.name}",
-                      detail, key=f"C01:{sd['what']}:{cfg.name}")
+                      detail, key=key)
 
 
 def differential(ctx, n_prog, cfgs, salt="gen", features=None):
@@ -91,6 +136,9 @@ def differential(ctx, n_prog, cfgs, salt="gen", features=None):
 
 
 def run(ctx):
+    from vlib.c01_replay import replay
+    if replay(ctx):
+        return
     b = ctx.coq_build(COQ_FILES)
     if not b["ok"]:
         ctx.violation("theorem-broken", f"{b.get('failed_lemma')} in {b['file']}",
@@ -98,7 +146,7 @@ def run(ctx):
         if "VyCore" in b["file"] or "VyShow" in b["file"] or "VyWf" in b["file"]:
             return
     cfgs = configs(ctx.tier)
-    n = 120 if ctx.tier == "quick" else 1200
+    n = 80 if ctx.tier == "quick" else 300
     items, stats = differential(ctx, n, cfgs)
     ctx.corr["generator"] = stats
     ctx.corr["configs"] = [c.name for c in cfgs]
